@@ -17,6 +17,8 @@ struct FileSpec {
     includes: Vec<String>,
     templates: Vec<String>,
     functions: Vec<String>,
+    /// the first template instantiates a template of an included file (when an include resolves)
+    uses_included: bool,
     /// 0 = `pragma circom 2.0.0`, 1 = a version newer than the tool supports (an error, after which the
     /// file's includes and definitions still count), 2 = no pragma (a warning)
     pragma: u8,
@@ -93,7 +95,8 @@ fn gen_proj(t: &mut Tape) -> Proj {
             2 => 2,
             _ => 0,
         };
-        files.push(FileSpec { rel, includes: vec![], templates, functions, pragma });
+        let uses_included = t.chance(128);
+        files.push(FileSpec { rel, includes: vec![], templates, functions, pragma, uses_included });
     }
     let mut symlinks = Vec::new();
     if t.chance(80) {
@@ -172,14 +175,14 @@ fn gen_proj(t: &mut Tape) -> Proj {
     let mut shadow_includer: Option<usize> = None;
     if libs.iter().any(|l| l == "lib") && t.chance(70) {
         let base = files.len();
-        files.push(FileSpec { rel: "lib/zs.circom".into(), includes: vec![], templates: vec![format!("T{base}x0")], functions: vec![], pragma: 0 });
-        files.push(FileSpec { rel: "sub/zs.circom".into(), includes: vec![], templates: vec![format!("T{}x0", base + 1)], functions: vec![], pragma: 0 });
-        files.push(FileSpec { rel: "sub/zb.circom".into(), includes: vec!["zs.circom".into()], templates: vec![format!("T{}x0", base + 2)], functions: vec![], pragma: 0 });
+        files.push(FileSpec { rel: "lib/zs.circom".into(), includes: vec![], templates: vec![format!("T{base}x0")], functions: vec![], pragma: 0, uses_included: false });
+        files.push(FileSpec { rel: "sub/zs.circom".into(), includes: vec![], templates: vec![format!("T{}x0", base + 1)], functions: vec![], pragma: 0, uses_included: false });
+        files.push(FileSpec { rel: "sub/zb.circom".into(), includes: vec!["zs.circom".into()], templates: vec![format!("T{}x0", base + 2)], functions: vec![], pragma: 0, uses_included: false });
         let mut inc = vec!["zs.circom".to_string(), "sub/zb.circom".to_string()];
         if t.chance(128) {
             inc.reverse();
         }
-        files.push(FileSpec { rel: "za.circom".into(), includes: inc, templates: vec![format!("T{}x0", base + 3)], functions: vec![], pragma: 0 });
+        files.push(FileSpec { rel: "za.circom".into(), includes: inc, templates: vec![format!("T{}x0", base + 3)], functions: vec![], pragma: 0, uses_included: false });
         shadow_includer = Some(base + 3);
     }
     let n = files.len();
@@ -223,7 +226,7 @@ fn gen_proj(t: &mut Tape) -> Proj {
     Proj { files, symlinks, named, libs, absolute_args, named_dirs }
 }
 
-fn file_source(f: &FileSpec) -> String {
+fn file_source(f: &FileSpec, index: usize, uses: Option<usize>) -> String {
     let mut s = String::from(match f.pragma {
         1 => "pragma circom 2.1.9;\n",
         2 => "// no pragma\n",
@@ -235,11 +238,20 @@ fn file_source(f: &FileSpec) -> String {
     for g in &f.functions {
         s.push_str(&format!("function {g}(x) {{\n    return x + 1;\n}}\n"));
     }
-    for t in &f.templates {
+    for (k, t) in f.templates.iter().enumerate() {
+        // the first template instantiates the sugared template of a file this one includes
+        let inst = match uses {
+            Some(j) if k == 0 => format!("    component zc = S{j}();\n    zc.a <== a;\n"),
+            _ => String::new(),
+        };
         s.push_str(&format!(
-            "template {t}() {{\n    signal input a;\n    signal output b;\n    b <-- a;\n    b === a;\n}}\n"
+            "template {t}() {{\n    signal input a;\n    signal output b;\n{inst}    b <-- a;\n    b === a;\n}}\n"
         ));
     }
+    // a template written with an anonymous component, for the files that include this one
+    s.push_str(&format!(
+        "template S{index}() {{\n    signal input a;\n    signal output b;\n    b <== I{index}()(a);\n}}\ntemplate I{index}() {{\n    signal input i;\n    signal output o;\n    o <== i;\n}}\n"
+    ));
     s
 }
 
@@ -247,11 +259,22 @@ fn materialise(root: &Path, p: &Proj) -> Result<(), Bad> {
     for d in DIRS.iter().chain(EXTRA_DIRS.iter()) {
         std::fs::create_dir_all(root.join(d)).map_err(|e| Bad::new(format!("INFRA mkdir: {e}")))?;
     }
-    for f in &p.files {
-        std::fs::write(root.join(&f.rel), file_source(f)).map_err(|e| Bad::new(format!("INFRA write: {e}")))?;
+    for (i, f) in p.files.iter().enumerate() {
+        std::fs::write(root.join(&f.rel), file_source(f, i, None)).map_err(|e| Bad::new(format!("INFRA write: {e}")))?;
     }
     for (link, target) in &p.symlinks {
         let _ = std::os::unix::fs::symlink(root.join(&p.files[*target].rel), root.join(link));
+    }
+    // second phase (resolution depends on paths only): the first template of a file instantiates the
+    // sugared template of the first file one of its includes resolves to
+    let canon: BTreeMap<PathBuf, usize> =
+        p.files.iter().enumerate().filter_map(|(i, f)| std::fs::canonicalize(root.join(&f.rel)).ok().map(|c| (c, i))).collect();
+    for (i, f) in p.files.iter().enumerate() {
+        let Ok(me) = std::fs::canonicalize(root.join(&f.rel)) else { continue };
+        let uses = f.includes.iter().filter_map(|inc| resolve_include(root, &me, inc, &p.libs)).filter_map(|c| canon.get(&c).copied()).find(|j| *j != i);
+        if uses.is_some() && f.uses_included {
+            std::fs::write(root.join(&f.rel), file_source(f, i, uses)).map_err(|e| Bad::new(format!("INFRA write: {e}")))?;
+        }
     }
     Ok(())
 }
@@ -357,6 +380,8 @@ fn expected(root: &Path, p: &Proj) -> Expected {
             for t in &p.files[i].templates {
                 analysed.insert(format!("analyzing template '{t}'"));
             }
+            analysed.insert(format!("analyzing template 'S{i}'"));
+            analysed.insert(format!("analyzing template 'I{i}'"));
             for g in &p.files[i].functions {
                 analysed.insert(format!("analyzing function '{g}'"));
             }
@@ -511,7 +536,7 @@ fn check_project_in(ctx: &Ctx, p: &Proj, rec: &Rec, root: &Path) -> Verdict {
     }
     // 4. every definition of a named file yields its deterministic finding (included ones inform, named ones report)
     let cs5 = parsed.diags.iter().filter(|d| matches!(d.id.as_deref(), Some("CS0005") | Some("CS0013"))).count();
-    let expected_cs5 = exp.analysed.iter().filter(|a| a.contains("template")).count();
+    let expected_cs5 = exp.analysed.iter().filter(|a| a.contains("template 'T")).count();
     if cs5 != expected_cs5 {
         return Err(Bad::new(format!("{cs5} `<--` findings displayed, {expected_cs5} templates in named files")).sig("C19:finding-count").rendered(render()));
     }
@@ -623,7 +648,7 @@ pub fn run(ctx: &Ctx) -> i32 {
         &outcome,
         EvidenceSpec {
             level: "exploration",
-            rule: "projects of 2-6 files spread over five directories with generated include graphs (chains, diamonds, cycles, self includes; spellings `x`, `./x`, `dir/../x`, `../dir/x`, bare names resolved through -L directories and -L files, includes through a symlink, unresolvable includes), a generated choice of named files (also spelled `./x` or through a symlink, and in a sixth of the projects a directory argument - alone or next to files - naming every `.circom` file below it) and of library arguments in either order. A third of the files are not called `*.circom` (they can be included, not named). A fifth of the files carry a pragma the tool does not support or none at all (an error or a warning, after which their includes and definitions count as before). Every file defines uniquely named templates with one deterministic `<--` finding. The real binary runs with RUST_LOG=circomspect_parser=debug; a reference resolver (includer directory first, then libraries in order) computes the reachable file set on the materialised tree. Checked: clean termination; each reachable file (by canonical path) read exactly once and nothing else read; `analyzing` lines = definitions of named files, once each; all located findings in named files; one `<--` finding per template of a named file; unresolvable includes of named files = P1000 errors at the include statement's line. Non-trivial = project whose include graph has a cycle, a diamond or a file reached twice; distinct by project hash.",
+            rule: "projects of 2-6 files spread over five directories with generated include graphs (chains, diamonds, cycles, self includes; spellings `x`, `./x`, `dir/../x`, `../dir/x`, bare names resolved through -L directories and -L files, includes through a symlink, unresolvable includes), a generated choice of named files (also spelled `./x` or through a symlink, and in a sixth of the projects a directory argument - alone or next to files - naming every `.circom` file below it) and of library arguments in either order. A third of the files are not called `*.circom` (they can be included, not named). A fifth of the files carry a pragma the tool does not support or none at all (an error or a warning, after which their includes and definitions count as before). Every file defines uniquely named templates with one deterministic `<--` finding, plus a template written with an anonymous component; in half of the files the first template instantiates that template of the first file one of its includes resolves to (so included-only definitions have to be desugared and lifted for the named file's analysis). The real binary runs with RUST_LOG=circomspect_parser=debug; a reference resolver (includer directory first, then libraries in order) computes the reachable file set on the materialised tree. Checked: clean termination; each reachable file (by canonical path) read exactly once and nothing else read; `analyzing` lines = definitions of named files, once each; all located findings in named files; one `<--` finding per template of a named file; unresolvable includes of named files = P1000 errors at the include statement's line. Non-trivial = project whose include graph has a cycle, a diamond or a file reached twice; distinct by project hash.",
             assumptions: vec!["read counts are taken from the parser's own debug log line `reading file`".into()],
             extra: json!({}),
         },
